@@ -91,8 +91,9 @@ func DateFromTime(t time.Time) (date *Date, err error) {
 	// Create a new Date
 	date = new(Date)
 
-	// Convert time to milliseconds since Unix epoch
-	msec := t.UnixNano() / int64(1000000)
+	// Convert time to milliseconds since Unix epoch. UnixMilli is exact for
+	// every int64 millisecond value; UnixNano overflows after year 2262.
+	msec := t.UnixMilli()
 
 	// Convert to big-endian bytes
 	for i := 7; i >= 0; i-- {
